@@ -514,3 +514,31 @@ def production_names(model, rng, share=0.5):
     if names:
         model["lib"]["public.postscriptNames"] = names
     return model
+
+
+def summary_special(model, rng):
+    """C17: trailing equal-advance runs, zero advances, empty glyphs, negative side bearings, deep mirrored nesting."""
+    glyphs = [g for g in model["glyphs"] if g["name"] != ".notdef"]
+    order = model["lib"].get("public.glyphOrder") or [g["name"] for g in glyphs]
+    mode = rng.randrange(4)
+    by = {g["name"]: g for g in glyphs}
+    tail = [n for n in order if n in by][-rng.randint(2, max(2, len(order) // 2)):]
+    if mode == 0:
+        tail = [n for n in order if n in by]  # all advances equal
+    w = rng.choice([0, 500, 600, 1000])
+    for n in tail:
+        for layer in by[n]["layers"].values():
+            layer["width"] = w
+    for g in rng.sample(glyphs, min(2, len(glyphs))):
+        empty = rng.random() < 0.5
+        used = any(c["base"] == g["name"] for o in glyphs for l in o["layers"].values() for c in l["components"])
+        for layer in g["layers"].values():
+            if layer["components"]:
+                continue
+            if empty and not used:
+                layer["contours"] = []  # empty glyph
+            else:
+                for c in layer["contours"]:
+                    for p in c:
+                        p[0] -= 400  # negative left side bearing
+    return model
